@@ -361,6 +361,9 @@ def main():
                 assumptions = {}
             else:
                 discharged = len([n for n in obligations if n in assumptions])
+                if discharged != len(obligations):
+                    missing = [n for n in obligations if n not in assumptions]
+                    broken.append(("print-assumptions", "no Print Assumptions report for %s" % ", ".join(missing)))
         # 3. harness
         err = build_harness(log, race=prop in RACE_PROPS)
     res = None
